@@ -117,41 +117,6 @@ theorem adjust_total (m : Map) (hwf : WF m) (hu : Units (m.edges.take m.len)) (o
   rw [h1]
   exact adjustPass2_ok m.edges m.len hlen saved hs
 
-theorem transformUp_ok (edges : List Hint) (limit : Nat) (ge : Nat → Bool) (hl : limit < edges.length) :
-    ∀ (fuel i : Nat), i ≤ limit → ∃ r, transformUp edges limit ge fuel i = some r ∧ r ≤ limit := by
-  intro fuel
-  induction fuel with
-  | zero => intro i hi; exact ⟨i, rfl, hi⟩
-  | succ f ih =>
-    intro i hi
-    unfold transformUp
-    split
-    · obtain ⟨v, hv⟩ := getAt_ok (l := edges) (i := i + 1) (by omega)
-      rw [hv]
-      simp only []
-      split
-      · exact ih (i + 1) (by omega)
-      · exact ⟨i, rfl, hi⟩
-    · exact ⟨i, rfl, hi⟩
-
-theorem transformDown_ok (edges : List Hint) (lt : Nat → Bool) :
-    ∀ (fuel i : Nat), i < edges.length → ∃ r, transformDown edges lt fuel i = some r ∧ r ≤ i := by
-  intro fuel
-  induction fuel with
-  | zero => intro i hi; exact ⟨i, rfl, Nat.le_refl _⟩
-  | succ f ih =>
-    intro i hi
-    unfold transformDown
-    split
-    · obtain ⟨v, hv⟩ := getAt_ok (l := edges) (i := i) hi
-      rw [hv]
-      simp only []
-      split
-      · obtain ⟨r, hr, hle⟩ := ih (i - 1) (by omega)
-        exact ⟨r, hr, by omega⟩
-      · exact ⟨i, rfl, Nat.le_refl _⟩
-    · exact ⟨i, rfl, Nat.le_refl _⟩
-
 /-- **`transform` never indexes outside the array**: both scans and the final reads stay below `len` -/
 theorem transform_total (m : Map) (hwf : WF m) (ge lt : Nat → Bool) :
     ∃ i, HintMap.transform m ge lt = some i ∧ (m.len = 0 ∨ i < m.len) := by
